@@ -1500,7 +1500,14 @@ func settersStoreAsIs(r *core.Run) {
 		why := ""
 		for _, c := range core.Calls(fn) {
 			f := core.StaticCallee(c)
-			if f == nil || f.Pkg == nil || f.Pkg.Pkg.Path() != "math/big" {
+			if f == nil || f.Pkg == nil {
+				continue
+			}
+			if core.RecvNamed(f) != nil && core.RecvNamed(f).Obj() == p.Named("asetypes", "Decimal").Obj() && f != fn {
+				why = "Decimal." + name + " also calls Decimal." + f.Name() + ": what is stored depends on the value the decimal held before (e.g. its old sign is re-applied), not only on the value given"
+				continue
+			}
+			if f.Pkg.Pkg.Path() != "math/big" {
 				continue
 			}
 			if f.Name() != name {
@@ -1508,5 +1515,434 @@ func settersStoreAsIs(r *core.Run) {
 			}
 		}
 		r.Check(why == "", "R16.10", "Decimal."+name+": stores the value as it is given", fn.Pos(), "only big.Int."+name, why)
+	}
+}
+
+// addPacketOwner: PacketQueue.AddPacket appends a RECEIVED packet and looks at its EOM bit; it is called by
+// Channel.WritePacket only. The transmit queue grows through WriteBytes, which opens packets at the size in force
+// when the bytes are written: a packet put there ahead of time keeps the size of that moment.
+func addPacketOwner(r *core.Run, rule string) {
+	p := r.Prog
+	wp := p.Func("tds", "Channel", "WritePacket")
+	ap := p.Func("tds", "PacketQueue", "AddPacket")
+	n := 0
+	for _, fn := range p.ModuleFuncs() {
+		if fn.Blocks == nil || p.FuncInOverlay(fn) {
+			continue
+		}
+		outer := fn
+		for outer.Parent() != nil {
+			outer = outer.Parent()
+		}
+		for _, c := range callsTo(fn, ap) {
+			n++
+			if outer == wp {
+				r.OK(rule, "WritePacket queues the received packet", c.Pos(), "receive path")
+				continue
+			}
+			r.Bad(rule, core.FuncName(outer)+": AddPacket outside WritePacket", c.Pos(), core.FuncName(outer)+" puts a packet into a queue with AddPacket: on the transmit queue the packet keeps the size it was made with — after the server announced another packet size the next message starts with a packet of the old size (too long, or short and flagged end-of-message)")
+		}
+	}
+	r.Check(n >= 1, rule, "AddPacket is called by WritePacket only", token.NoPos, fmt.Sprintf("%d call sites", n), "WritePacket no longer queues received packets with AddPacket")
+}
+
+// headerAcceptsAllSizes: PacketHeader.Write (the header parser) does not reject a header because its length field is
+// LARGE: the field is 16 bits and servers are configured up to 65024. An upper bound taken from an older server's
+// limit drops every response that arrives in bigger packets and desynchronises the stream.
+func headerAcceptsAllSizes(r *core.Run, rule string) {
+	p := r.Prog
+	fn := p.Func("tds", "PacketHeader", "Write")
+	why := ""
+	nErr := 0
+	for _, ret := range core.Returns(fn) {
+		rv := core.RetVals(ret)
+		if !core.IsNil(rv[len(rv)-1]) {
+			nErr++
+		}
+	}
+	for _, b := range fn.Blocks {
+		for _, in := range b.Instrs {
+			bo, ok := in.(*ssa.BinOp)
+			if !ok {
+				continue
+			}
+			k, isK := core.ConstInt64(bo.Y)
+			if !isK || k <= 8 || k >= 65535 {
+				continue
+			}
+			if _, isLen := isLenCall(core.Strip(bo.X)); isLen {
+				continue // the buffer-length test
+			}
+			switch bo.Op {
+			case token.GTR, token.GEQ, token.LEQ, token.LSS:
+				why = fmt.Sprintf("the header parser compares a header field with %d (%s): packets up to 65535 bytes are legal, and a response sent in packets larger than that bound is rejected and the stream desynchronised", k, core.Expr(bo))
+			}
+		}
+	}
+	r.Check(why == "", rule, "PacketHeader.Write accepts every 16-bit length", fn.Pos(), fmt.Sprintf("no upper bound below 65535 on a header field (%d error return(s))", nErr), why)
+}
+
+// lastPkgRxWriters: Channel.lastPkgRx (the package the end-of-message logic and the next package's preparation look
+// at) is written by tryParsePackage — after it delivered the package — and by the setter. A filtered package
+// (ENVCHANGE, informational EED) is not a delivered one: recorded as the last package behind the server's final DONE
+// it makes the library add a second final DONE, which the consumer reads as the start of the next response.
+func lastPkgRxWriters(r *core.Run, rule string) {
+	p := r.Prog
+	f := p.Field("tds", "Channel", "lastPkgRx")
+	allowed := map[*ssa.Function]bool{p.Func("tds", "Channel", "tryParsePackage"): true, p.Func("tds", "Channel", "SetLastPkgRx"): true}
+	n := 0
+	for _, fn := range p.ModuleFuncs() {
+		if fn.Blocks == nil || p.FuncInOverlay(fn) {
+			continue
+		}
+		outer := fn
+		for outer.Parent() != nil {
+			outer = outer.Parent()
+		}
+		for _, b := range fn.Blocks {
+			for _, in := range b.Instrs {
+				st, ok := in.(*ssa.Store)
+				if !ok {
+					continue
+				}
+				fa, ok := st.Addr.(*ssa.FieldAddr)
+				if !ok || core.FieldOfAddr(fa) != f {
+					continue
+				}
+				if _, fresh := core.Strip(fa.X).(*ssa.Alloc); fresh {
+					continue // initialisation of a new Channel
+				}
+				n++
+				if allowed[outer] {
+					r.OK(rule, core.FuncName(outer)+": sets lastPkgRx", st.Pos(), "delivery / setter")
+					continue
+				}
+				r.Bad(rule, core.FuncName(outer)+": sets Channel.lastPkgRx", st.Pos(), core.FuncName(outer)+" records a package as the last received one although it was not delivered to the consumer: behind the server's final DONE it hides that DONE from the end-of-message logic, which then queues a DONE(FINAL) of its own — the first package the consumer reads for the next request")
+			}
+		}
+	}
+	r.Check(n >= 2, rule, "Channel.lastPkgRx is written on delivery and by its setter only", token.NoPos, fmt.Sprintf("%d stores", n), "the stores of lastPkgRx in tryParsePackage/SetLastPkgRx were not found")
+}
+
+// packChecksEveryField: every writeString call in LoginConfig.pack has its error examined: writeString writes
+// NOTHING when it rejects an oversized value, so a discarded error leaves the whole fixed-width block out and every
+// later field of the login record is shifted.
+func packChecksEveryField(r *core.Run, rule string) {
+	p := r.Prog
+	fn := p.Func("tds", "LoginConfig", "pack")
+	ws := p.Func("tds", "", "writeString")
+	n := 0
+	for _, c := range callsTo(fn, ws) {
+		n++
+		v := c.Value()
+		used := false
+		if v != nil {
+			for _, ref := range *v.Referrers() {
+				if _, isDbg := ref.(*ssa.DebugRef); !isDbg {
+					used = true
+				}
+			}
+		}
+		r.Check(used, rule, "pack: error of writeString examined", c.Pos(), "if err := writeString(...); err != nil { return }", "the error of writeString is discarded: an oversized value is skipped instead of rejected, its fixed-width block is missing from the login record and every field after it is read by the server at the wrong offset")
+	}
+	if n == 0 {
+		r.Bad(rule, "pack: writeString calls", fn.Pos(), "no writeString call found in pack")
+	}
+}
+
+// lengthPrefixIsLen: in fieldDataBase.writeTo the length written in front of a variable-length value is len() of the
+// very bytes written after it — not a clamped or otherwise adjusted number, after which the reader takes the surplus
+// bytes for the next field.
+func lengthPrefixIsLen(r *core.Run, rule string) {
+	p := r.Prog
+	fn := p.Func("tds", "fieldDataBase", "writeTo")
+	wl := p.Func("tds", "", "writeLengthBytes")
+	n := 0
+	for _, c := range callsTo(fn, wl) {
+		n++
+		args := c.Common().Args
+		la, isLen := isLenCall(core.Strip(args[len(args)-1]))
+		why := ""
+		if !isLen {
+			why = "the length prefix is " + core.Expr(args[len(args)-1]) + ", not len() of the bytes written after it: when the two differ (a value longer than the format's maximum) the reader stops early and parses the rest of the value as the next field"
+		} else {
+			// the same bytes go to WriteBytes
+			same := false
+			for _, c2 := range core.Calls(fn) {
+				if c2.Common().IsInvoke() && c2.Common().Method.Name() == "WriteBytes" && core.Strip(c2.Common().Args[0]) == core.Strip(la) {
+					same = true
+				}
+			}
+			if !same {
+				why = "the length prefix is the length of " + core.Expr(la) + ", which is not what is written after it"
+			}
+		}
+		r.Check(why == "", rule, "fieldDataBase.writeTo: length prefix = len(bytes written)", c.Pos(), "writeLengthBytes(ch, n, len(bs)); ch.WriteBytes(bs)", why)
+	}
+	if n == 0 {
+		r.Bad(rule, "fieldDataBase.writeTo: length prefix", fn.Pos(), "no writeLengthBytes call found")
+	}
+}
+
+// receiveLoopsEndOnError: every loop in package tds around a NextPackage / NextPackageUntil call is left when the
+// call fails — whatever the error is. A loop that only ends on one particular error (ErrNoPackageReady) spins forever
+// on a closed channel, where every call reports ErrChannelClosed at once and before any context is looked at.
+func receiveLoopsEndOnError(r *core.Run, rule string) {
+	p := r.Prog
+	np := p.Func("tds", "Channel", "NextPackage")
+	npu := p.Func("tds", "Channel", "NextPackageUntil")
+	n := 0
+	for _, fn := range p.ModuleFuncs() {
+		if fn.Blocks == nil || fn.Pkg == nil || fn.Pkg.Pkg.Path() != core.Module+"/tds" || p.FuncInOverlay(fn) {
+			continue
+		}
+		for _, c := range core.Calls(fn) {
+			f := core.StaticCallee(c)
+			if f != np && f != npu {
+				continue
+			}
+			h, loop := core.InnermostLoop(c.Block())
+			if loop == nil {
+				continue
+			}
+			e, has := errResult(c)
+			n++
+			why := ""
+			if !has || e == nil {
+				why = "the error of the receive call is discarded inside a loop"
+			} else {
+				core.EnumPaths(c.Block(), func(b *ssa.BasicBlock) bool { return b == h }, loop, 3000, func(pa core.Path, ended bool) {
+					if !ended {
+						return
+					}
+					knownNil := false
+					for _, cd := range pa.Conds {
+						if x, nn, ok := core.ErrNilTest(cd.If.Cond); ok && x == e && nn != cd.Pol {
+							knownNil = true
+						}
+					}
+					if !knownNil {
+						why = "the loop around " + f.Name() + " can go round again although the call failed (the error is only compared with one particular error): on a closed channel the call fails at once every time and the loop never ends"
+					}
+				})
+			}
+			r.Check(why == "", rule, core.FuncName(fn)+": loop around "+f.Name()+" ends on any error", c.Pos(), "the way back to the loop head passes err == nil", why)
+		}
+	}
+	if n == 0 {
+		r.Bad(rule, "receive loops", token.NoPos, "no loop around NextPackage/NextPackageUntil found (NextPackageUntil has one)")
+	}
+}
+
+// headerOnlyByLength: WritePacket recognises a header-only packet by Header.Length == PacketHeaderSize — the length
+// the peer announced — not by the body being empty: a packet whose header could not be read completely has a zero
+// header and no body, and would be delivered as a header-only package instead of being followed by the read error.
+func headerOnlyByLength(r *core.Run, rule string) {
+	p := r.Prog
+	fn := p.Func("tds", "Channel", "WritePacket")
+	fLen := p.Field("tds", "PacketHeader", "Length")
+	fCh := p.Field("tds", "Channel", "packageCh")
+	hdr := p.ConstInt("tds", "PacketHeaderSize")
+	n := 0
+	for _, b := range fn.Blocks {
+		for _, in := range b.Instrs {
+			s, ok := in.(*ssa.Send)
+			if !ok {
+				continue
+			}
+			if f, _ := core.FieldLoad(s.Chan); f != fCh {
+				continue
+			}
+			mi, isMI := s.X.(*ssa.MakeInterface)
+			if !isMI || !core.IsNamedType(mi.X.Type(), core.Module+"/tds", "HeaderOnlyPackage") {
+				continue
+			}
+			n++
+			good := false
+			for _, g := range core.GuardsAt(s) {
+				bo, isBo := g.Cond.(*ssa.BinOp)
+				if !isBo {
+					continue
+				}
+				for _, sw := range [][2]ssa.Value{{bo.X, bo.Y}, {bo.Y, bo.X}} {
+					f, _ := core.FieldLoad(core.Strip(sw[0]))
+					k, isK := core.ConstInt64(sw[1])
+					if f == fLen && isK && k == hdr && ((bo.Op == token.EQL && g.Pol) || (bo.Op == token.NEQ && !g.Pol)) {
+						good = true
+					}
+				}
+			}
+			r.Check(good, rule, "WritePacket: header-only means Header.Length == PacketHeaderSize", s.Pos(), "the send of HeaderOnlyPackage is under Header.Length == 8", "a packet is passed on as header-only without its header saying so (e.g. because its body is empty): the zero-valued packet of a read that failed inside the header is delivered as a package, with no error after it")
+		}
+	}
+	if n == 0 {
+		r.Bad(rule, "WritePacket: header-only packets", fn.Pos(), "no delivery of HeaderOnlyPackage found")
+	}
+}
+
+// writeToReturnsCount: Packet.WriteTo returns the count the transport's Write reported; sendPacket compares it with
+// the header length, which is the only place a short write without error is noticed.
+func writeToReturnsCount(r *core.Run, rule string) {
+	p := r.Prog
+	fn := p.Func("tds", "Packet", "WriteTo")
+	var wr *ssa.Call
+	for _, c := range core.Calls(fn) {
+		if c.Common().IsInvoke() && c.Common().Method.Name() == "Write" {
+			wr, _ = c.(*ssa.Call)
+		}
+	}
+	why := ""
+	if wr == nil {
+		why = "Packet.WriteTo does not call the writer's Write"
+	} else {
+		for _, ret := range core.Returns(fn) {
+			rv := core.RetVals(ret)
+			if !core.IsNil(rv[1]) && !errNilGuardedNot(core.GuardsAt(ret), wr) {
+				continue
+			}
+			if !core.Dominates(wr, ret) {
+				continue
+			}
+			ex, ok := core.Strip(rv[0]).(*ssa.Extract)
+			if !ok || ex.Tuple != ssa.Value(wr) || ex.Index != 0 {
+				why = "after the Write Packet.WriteTo returns " + core.Expr(rv[0]) + " as the count, not what Write reported: a transport that writes part of a packet and returns no error goes unnoticed, the request is reported as sent and the consumer waits for an answer that never comes"
+			}
+		}
+	}
+	r.Check(why == "", rule, "Packet.WriteTo returns the count of the transport write", fn.Pos(), "return int64(n), err of writer.Write(bs)", why)
+}
+
+func errNilGuardedNot(gs []core.Guard, c ssa.CallInstruction) bool { return true }
+
+// accessorsReturnField: the accessors of a pooled name hand out the text as it was formatted: Name() returns the
+// field itself and String() returns Name() (or the field). A trimmed or cut text is no longer the pool's format
+// applied to the id, and different ids can print alike.
+func accessorsReturnField(r *core.Run, rule string) {
+	p := r.Prog
+	fName := p.Field("namepool", "Name", "name")
+	nameFn := p.Func("namepool", "Name", "Name")
+	for _, fn := range []*ssa.Function{nameFn, p.Func("namepool", "Name", "String")} {
+		why := ""
+		for _, ret := range core.Returns(fn) {
+			v := core.Strip(core.RetVals(ret)[0])
+			if f, _ := core.FieldLoad(v); f == fName {
+				continue
+			}
+			if c, ok := v.(*ssa.Call); ok && c.Call.StaticCallee() == nameFn && fn != nameFn {
+				continue
+			}
+			why = "Name." + fn.Name() + " returns " + core.Expr(v) + ", not the text as formatted: the text handed out is not the pool's format applied to the id, and two held names can show the same text"
+		}
+		r.Check(why == "", rule, "Name."+fn.Name()+": the text as it was formatted", fn.Pos(), "return name.name", why)
+	}
+}
+
+// valuesReachFieldsUnchanged: the text of a value reaches the typed assignment as it was written: setValue hands its
+// parameter itself to SetString/ParseBool/ParseInt, and FromEnv hands setValue the second half of the KEY=value split
+// itself. Unescaping or trimming on the way changes values that contain '%', or start or end with blanks.
+func valuesReachFieldsUnchanged(r *core.Run, rule string) {
+	p := r.Prog
+	sv := p.Func("dsn", "", "setValue")
+	val := sv.Params[1]
+	n := 0
+	why := ""
+	for _, c := range core.Calls(sv) {
+		f := core.StaticCallee(c)
+		if f == nil {
+			continue
+		}
+		isSet := f.Name() == "SetString" && f.Pkg != nil && f.Pkg.Pkg.Path() == "reflect"
+		isParse := f.Pkg != nil && f.Pkg.Pkg.Path() == "strconv" && strings.HasPrefix(f.Name(), "Parse")
+		if !isSet && !isParse {
+			continue
+		}
+		n++
+		arg := c.Common().Args[0]
+		if isSet {
+			arg = c.Common().Args[1]
+		}
+		if core.Strip(arg) != ssa.Value(val) {
+			why = "setValue hands " + core.Expr(arg) + " to " + f.Name() + ", not the text it was given: a value containing such sequences (a '%' followed by two hex digits, leading blanks) is stored changed"
+		}
+	}
+	if n < 3 {
+		why = "the typed assignments of setValue were not found"
+	}
+	r.Check(why == "", rule, "setValue: the text is assigned as given", sv.Pos(), "SetString(value) / ParseBool(value) / ParseInt(value)", why)
+
+	fe := p.Func("dsn", "", "FromEnv")
+	why2 := "FromEnv does not call setValue"
+	for _, c := range callsTo(fe, sv) {
+		v := core.Strip(c.Common().Args[1])
+		ok := false
+		if u, isU := v.(*ssa.UnOp); isU && u.Op == token.MUL {
+			if ia, isIA := u.X.(*ssa.IndexAddr); isIA {
+				if k, isK := core.ConstInt64(ia.Index); isK && k == 1 {
+					if sp, isC := core.Strip(ia.X).(*ssa.Call); isC && core.IsPkgFunc(sp, "strings", "SplitN") {
+						ok = true
+					}
+				}
+			}
+		}
+		if ok {
+			why2 = ""
+		} else {
+			why2 = "FromEnv hands " + core.Expr(v) + " to setValue, not the value half of the KEY=value split itself: blanks at either end of a value (or other trimmed characters) are lost"
+		}
+	}
+	r.Check(why2 == "", rule, "FromEnv: the value half of the split is assigned as it is", fe.Pos(), "strings.SplitN(env, \"=\", 2)[1]", why2)
+}
+
+// rangesNeverEdited: NewCapability builds each range in a local and appends it; a range that is already in the list is
+// never modified. Merging "adjacent" ranges by comparing bound strings treats two missing bounds as adjacent and
+// swallows malformed ranges that would have been reported.
+func rangesNeverEdited(r *core.Run, rule string) {
+	p := r.Prog
+	fn := p.Func("capability", "", "NewCapability")
+	fI := p.Field("capability", "VersionRange", "Introduced")
+	fR := p.Field("capability", "VersionRange", "Removed")
+	n := 0
+	why := ""
+	for _, b := range fn.Blocks {
+		for _, in := range b.Instrs {
+			st, ok := in.(*ssa.Store)
+			if !ok {
+				continue
+			}
+			fa, ok := st.Addr.(*ssa.FieldAddr)
+			if !ok || (core.FieldOfAddr(fa) != fI && core.FieldOfAddr(fa) != fR) {
+				continue
+			}
+			n++
+			if _, local := fa.X.(*ssa.Alloc); !local {
+				why = "NewCapability changes a bound of a range that is already in the list (" + core.Expr(fa.X) + "): ranges are merged or rewritten, so '2.0.0','' followed by '','3.0.0' becomes [2.0.0,3.0.0) and a malformed range next to a good one is swallowed instead of reported"
+			}
+		}
+	}
+	if n == 0 {
+		why = "no assignment of range bounds found"
+	}
+	r.Check(why == "", rule, "NewCapability: ranges in the list are never modified", fn.Pos(), "bounds are stored into the local range only", why)
+}
+
+// answersUseNoPackageState: ToGo and String of ASEIsolationLevel use no package-level variable: a cache keyed by a
+// reduced level value answers one level with another level's text, depending on what was printed before.
+func answersUseNoPackageState(r *core.Run, rule string) {
+	p := r.Prog
+	for _, name := range []string{"ToGo", "String"} {
+		fn := p.Func("", "ASEIsolationLevel", name)
+		bad := ""
+		var rands []*ssa.Value
+		for _, b := range fn.Blocks {
+			for _, in := range b.Instrs {
+				rands = in.Operands(rands[:0])
+				for _, op := range rands {
+					if g, ok := (*op).(*ssa.Global); ok && g.Pkg == fn.Pkg {
+						bad = g.Name()
+					}
+				}
+			}
+		}
+		r.Check(bad == "", rule, "ASEIsolationLevel."+name+": no package-level state", fn.Pos(), "a function of the level alone", "ASEIsolationLevel."+name+" uses the package-level variable "+bad+": what it answers for a level depends on earlier calls (a cache shared by several level values) and not on the level alone")
 	}
 }
